@@ -24,8 +24,7 @@ func verifIsTableCommand(c uint32) bool {
 	return false
 }
 
-// verifStateS builds the reachable state S: direct agent A, pivot child B of A (id with
-// the top bit set), direct agent C; A has an open socks client, a reverse port forward
+// verifStateS builds the reachable state S: direct agent A, pivot child B of A , direct agent C (id with the top bit set); A has an open socks client, a reverse port forward
 // and (by choice) an open download and an extra outstanding task.
 func verifStateS() (*VerifTS, *Agent, *Agent, *Agent) {
 	logr.LogrInstance = &logr.Logr{Path: "/L", AgentPath: "/L/agents", ListenerPath: "/L/listener", ServerPath: "/L"}
@@ -33,8 +32,8 @@ func verifStateS() (*VerifTS, *Agent, *Agent, *Agent) {
 	VerifDials = nil
 	ts := &VerifTS{}
 	A := VerifNewAgent("11223344")
-	B := VerifNewAgent("8899aabb")
-	C := VerifNewAgent("0badf00d")
+	B := VerifNewAgent("5566aabb")
+	C := VerifNewAgent("8badf00d")
 	B.Pivots.Parent = A
 	A.Pivots.Links = append(A.Pivots.Links, B)
 	ts.Agents.Agents = []*Agent{A, B, C}
@@ -75,4 +74,33 @@ func H_c01_dispatch() {
 func H_c01_dispatch_deep() {
 	ci := nondet_choice("cmd", len(verifCommands)+1)
 	verifDispatchOnce(ci, verifDispatchDeepL)
+}
+
+// VerifStateS is the exported form of verifStateS for harnesses in other packages.
+func VerifStateS() (*VerifTS, *Agent, *Agent, *Agent) { return verifStateS() }
+
+// VerifQueueShape fills A's queue with jobs produced by the real task-building code
+// (never hand-made Job values), so that the pre-state is a reachable one:
+//  0 empty; 1 one operator job (sleep) for A; 2 a job for pivot child B, wrapped by the
+//  real PivotAddJob into A's queue; 3 an operator-issued "pivot command 12" job for A;
+//  4 shapes 1+2 together.
+func VerifQueueShape(ts *VerifTS, A, B *Agent, shape int) {
+	msg := map[string]string{}
+	mk := func(a *Agent, cmd int, info map[string]any) {
+		job, err := a.TaskPrepare(cmd, info, &msg, "", ts)
+		if err == nil && job != nil {
+			a.AddJobToQueue(*job)
+		}
+	}
+	switch shape {
+	case 1:
+		mk(A, COMMAND_SLEEP, map[string]any{"TaskID": "0000000a", "Arguments": "5;10"})
+	case 2:
+		mk(B, COMMAND_SLEEP, map[string]any{"TaskID": "0000000b", "Arguments": "5;10"})
+	case 3:
+		mk(A, COMMAND_PIVOT, map[string]any{"TaskID": "0000000c", "Command": "12"})
+	case 4:
+		mk(A, COMMAND_SLEEP, map[string]any{"TaskID": "0000000a", "Arguments": "5;10"})
+		mk(B, COMMAND_SLEEP, map[string]any{"TaskID": "0000000b", "Arguments": "5;10"})
+	}
 }
